@@ -65,7 +65,16 @@ type GhostDecl struct {
 	pkg  string
 }
 
+type MacroDef struct {
+	name   string
+	params []string
+	text   string
+	body   Expr
+}
+
 type ContractSet struct {
+	macros       map[string]*MacroDef
+	pendingMacro *MacroDef
 	byKey  map[string]*Contract // pkgPath + "::" + key
 	ghosts map[string]*GhostDecl
 	files  []string
@@ -133,6 +142,7 @@ func (cs *ContractSet) LoadFile(pkgPath, path string) error {
 			if err := finish(); err != nil {
 				return err
 			}
+			cs.pendingMacro = nil
 			isType := strings.HasPrefix(t, "type ")
 			name := strings.TrimSpace(t[5:])
 			if k := strings.IndexAny(name, " ("); k > 0 && !strings.HasPrefix(name, "(") {
@@ -154,6 +164,27 @@ func (cs *ContractSet) LoadFile(pkgPath, path string) error {
 			}
 			cs.byKey[k] = cur
 			cs.list = append(cs.list, cur)
+		case strings.HasPrefix(t, "macro "):
+			if err := finish(); err != nil {
+				return err
+			}
+			m := regexp.MustCompile(`^macro\s+(\w+)\(([^)]*)\)\s*=\s*(.*)$`).FindStringSubmatch(t)
+			if m == nil {
+				return fmt.Errorf("%s:%d: bad macro", path, ln+1)
+			}
+			md := &MacroDef{name: m[1], text: m[3]}
+			for _, p := range strings.Split(m[2], ",") {
+				if p = strings.TrimSpace(p); p != "" {
+					md.params = append(md.params, p)
+				}
+			}
+			if cs.macros == nil {
+				cs.macros = map[string]*MacroDef{}
+			}
+			cs.macros[md.name] = md
+			cur = nil
+			// continuation lines extend the macro body through a pseudo-let
+			cs.pendingMacro = md
 		case strings.HasPrefix(t, "ghost "):
 			if err := finish(); err != nil {
 				return err
@@ -165,6 +196,10 @@ func (cs *ContractSet) LoadFile(pkgPath, path string) error {
 			g := &GhostDecl{name: f[1], sort: Sort(strings.Join(f[2:], " ")), pkg: pkgPath}
 			cs.ghosts[g.name] = g
 		default:
+			if cur == nil && cs.pendingMacro != nil {
+				cs.pendingMacro.text += " " + t
+				continue
+			}
 			if cur == nil {
 				return fmt.Errorf("%s:%d: clause outside a func block: %q", path, ln+1, t)
 			}
